@@ -658,6 +658,9 @@ func (env *SpecEnv) evalCall(e *SExpr) TV {
 			return TV{Select(tv.T, env.eval(e.Args[0]).T), nil}
 		}
 		// pure spec function
+		if pf := env.lookupPure(name); pf != nil && pf.Ghost {
+			return env.callGhost(e, pf)
+		}
 		if pf := env.lookupPure(name); pf != nil {
 			return env.callPure(e, pf)
 		}
@@ -759,6 +762,16 @@ func (env *SpecEnv) convert(e *SExpr, a TV, to types.Type) TV {
 	}
 	if a.T.Sort == sortOf(to) {
 		return TV{a.T, to}
+	}
+	if sortOf(to) == SStr && isSliceSort(a.T.Sort) && a.Ty != nil {
+		if sl, ok := a.Ty.Underlying().(*types.Slice); ok {
+			if b, ok := sl.Elem().Underlying().(*types.Basic); ok {
+				if b.Kind() == types.Uint8 {
+					return TV{App("conv.bytes2str", SStr, sliceElems(a.T), sliceLen(a.T)), to}
+				}
+				return TV{App("conv.runes2str", SStr, sliceElems(a.T), sliceLen(a.T)), to}
+			}
+		}
 	}
 	env.fail(e, "unsupported conversion to "+to.String())
 	return TV{}
